@@ -131,6 +131,16 @@ def _mqtt_recording_class():
             await self._record_write(";".join(levels) + ";" + payload + "\n")
 
         async def read(self) -> str:
+            if getattr(self, "eager", False):
+                # a backlog: the broker delivered everything that is waiting before the application reads anything
+                pending, self.inbox[:] = list(self.inbox), []
+                for item in pending:
+                    publication = line_to_publication(item) if isinstance(item, str) else None
+                    if publication is not None:
+                        self._receive(f"{self.in_prefix}/{publication[0]}", publication[1])
+                if self._incoming_messages.empty():
+                    raise Drained
+                return await MQTTTransport.read(self)
             if not self.inbox:
                 raise Drained
             item = self.inbox.pop(0)
@@ -294,9 +304,36 @@ class debug_logging:
         self.saved = []
 
 
+EAGER_TASKS = [False]  # set by `eager_tasks(True)`: loops made by `run` start every task eagerly (asyncio.eager_task_factory, Python 3.12+)
+
+
+class eager_tasks:
+    """While active, `run` uses an event loop whose task factory is asyncio.eager_task_factory (an application may configure its loop so)."""
+
+    def __init__(self, enabled: bool) -> None:
+        self.enabled = bool(enabled) and hasattr(asyncio, "eager_task_factory")
+
+    def __enter__(self):
+        self.saved = EAGER_TASKS[0]
+        if self.enabled:
+            EAGER_TASKS[0] = True
+        return self
+
+    def __exit__(self, *exc) -> None:
+        EAGER_TASKS[0] = self.saved
+
+
 def run(coro: Any, *, debug_log: bool = False) -> Any:
     """Run a coroutine on a fresh event loop (optionally with the library logging at DEBUG)."""
     with debug_logging(debug_log):
+        if EAGER_TASKS[0]:
+            def factory():
+                loop = asyncio.new_event_loop()
+                loop.set_task_factory(asyncio.eager_task_factory)
+                return loop
+
+            with asyncio.Runner(loop_factory=factory) as runner:
+                return runner.run(coro)
         return asyncio.run(coro)
 
 
